@@ -343,6 +343,12 @@ S["loop_behind_two_hops"] = dict(
           E("A", group="g", emit=[0, None] * 3), E("B", group="g", emit_default=0), T("X")],
     conns=[C("U", "V", "eo", "ti"), C("V", "A", "eo", "ti"), C("A", "B", "eo", "ti"),
            C("B", "A", "eo", "ti", weak=True)])
+S["loop_unsettled_behind_two_hops"] = dict(
+    until=2, max_loop=3, groups=G1,
+    sims=[E("U", init_event=0, next=[1], emit_default=0), E("V", emit_default=0),
+          E("A", group="g", emit_default=0), E("B", group="g", emit_default=0), T("X")],
+    conns=[C("U", "V", "eo", "ti"), C("V", "A", "eo", "ti"), C("A", "B", "eo", "ti"),
+           C("B", "A", "eo", "ti", weak=True)])
 # a long run: a source that (when synchronous and started first, lazy stepping off) performs all
 # its steps before the loop members have started, so that their step queue holds a dozen entries
 # while the loop's sub-steps are inserted in front of them
